@@ -49,6 +49,69 @@ int main(void) {
             janet_restore(&ts);
             if (ok) printf("ok %d %ld\n", (int) ret, (long)(at - bytes)); else printf("err\n");
             free(bytes);
+        } else if (!strncmp(line, "push64 ", 7)) {
+            unsigned long long x = strtoull(line + 7, NULL, 10);
+            MarshalState st;
+            memset(&st, 0, sizeof st);
+            JanetBuffer *buf = janet_buffer(16);
+            st.buf = buf;
+            push64(&st, (uint64_t) x);
+            for (int32_t i = 0; i < buf->count; i++) printf("%02x", buf->data[i]);
+            printf("\n");
+        } else if (!strncmp(line, "read64", 6)) {
+            const char *h = line + 6;
+            while (*h == ' ') h++;
+            size_t hl = strlen(h);
+            uint8_t *bytes = malloc(hl / 2 ? hl / 2 : 1);
+            size_t len = hl / 2;
+            for (size_t i = 0; i < len; i++) bytes[i] = (uint8_t)(hexval(h[2*i]) * 16 + hexval(h[2*i+1]));
+            UnmarshalState st;
+            memset(&st, 0, sizeof st);
+            st.start = bytes; st.end = bytes + len;
+            const uint8_t *at = bytes;
+            JanetTryState ts;
+            volatile uint64_t ret = 0;
+            volatile int ok = 0;
+            JanetSignal sig = janet_try(&ts);
+            if (sig == JANET_SIGNAL_OK) {
+                ret = read64(&st, &at);
+                ok = 1;
+            }
+            janet_restore(&ts);
+            if (ok) printf("ok %llu %ld\n", (unsigned long long) ret, (long)(at - bytes)); else printf("err\n");
+            free(bytes);
+        } else if (!strncmp(line, "sweep64 ", 8)) {
+            /* direct oracle: read64(push64(x)) == x for x = seed-driven values at every byte-width boundary */
+            unsigned long long n, seed;
+            sscanf(line + 8, "%llu %llu", &seed, &n);
+            MarshalState st;
+            memset(&st, 0, sizeof st);
+            JanetBuffer *buf = janet_buffer(16);
+            st.buf = buf;
+            UnmarshalState us;
+            memset(&us, 0, sizeof us);
+            unsigned long long bad = 0, first = 0, s = seed;
+            for (unsigned long long k = 0; k < n; k++) {
+                s += 0x9E3779B97F4A7C15ULL;
+                unsigned long long z = s;
+                z = (z ^ (z >> 30)) * 0xBF58476D1CE4E5B9ULL;
+                z = (z ^ (z >> 27)) * 0x94D049BB133111EBULL;
+                z ^= z >> 31;
+                int w = (int)(k % 65);
+                uint64_t x = w == 0 ? 0 : (w == 64 ? z : (z & ((1ULL << w) - 1)));
+                if (k % 3 == 1 && w > 0 && w < 64) x = (1ULL << w) - (k % 5);   /* 2^w - small */
+                buf->count = 0;
+                push64(&st, x);
+                us.start = buf->data; us.end = buf->data + buf->count;
+                const uint8_t *at = buf->data;
+                JanetTryState ts;
+                volatile int ok = 0;
+                volatile uint64_t ret = 0;
+                if (janet_try(&ts) == JANET_SIGNAL_OK) { ret = read64(&us, &at); ok = 1; }
+                janet_restore(&ts);
+                if (!ok || ret != x || at != buf->data + buf->count) { if (!bad) first = x; bad++; }
+            }
+            if (bad) printf("fail %llu %llu\n", first, bad); else printf("ok\n");
         } else if (!strncmp(line, "sweep ", 6)) {
             /* direct oracle on the implementation: readint(pushint(x)) == x and consumes exactly what was pushed */
             long long lo, hi;
